@@ -225,7 +225,7 @@ class RealBinary:
         self.dir = ctx.dir("confirm")
         self.n = 0
 
-    def run(self, data, sanitize, limit_s=10):
+    def run(self, data, sanitize, limit_s=10, fuel=None):
         self.n += 1
         src = os.path.join(self.dir, "c%d.nano" % self.n)
         out = os.path.join(self.dir, "c%d.nvm" % self.n)
@@ -234,6 +234,8 @@ class RealBinary:
         env.update(self.ctx.env())
         for k2 in [x for x in env if x.startswith("NANOLANG_VERIF_")]:
             env.pop(k2)
+        if fuel:
+            env["NANOLANG_VERIF_PARSE_FUEL"] = fuel        # hooked build: names the loop that makes no progress
 
         def limits():
             if not sanitize:
@@ -291,6 +293,26 @@ def san_site(err, tree):
         except (OSError, IndexError):
             pass
     return (m.group(1) if m else "?"), [f[0] for f in fr[:3]], text
+
+
+def match_finding(findings, kind, loop=None, site=None, meta=None):
+    """the known-findings entry (status "known") that explains a misbehaviour, or None.  HANG: the H6 loop name;
+    SANITIZER: report kind + innermost frame (+ caller, + text of the source line); CRASH: the input class."""
+    for f in findings:
+        mt = f.get("match", {})
+        if mt.get("verdict") != kind:
+            continue
+        if kind == "HANG" and mt.get("loop") == loop:
+            return f
+        if kind == "CRASH" and mt.get("input_family") and meta and meta.get("fam") == mt["input_family"] and \
+                meta.get("kind") in mt.get("kinds", []) and meta.get("n", 0) >= mt.get("min_n", 0):
+            return f
+        if kind in ("SANITIZER", "CRASH") and site and mt.get("function") in site[1][:1] and \
+                (not mt.get("report") or mt.get("report") == site[0]) and \
+                (not mt.get("line_text") or mt.get("line_text") == site[2]) and \
+                (not mt.get("caller") or mt.get("caller") in site[1]):
+            return f
+    return None
 
 
 # ------------------------------------------------------------------------------------------- main entry
@@ -385,23 +407,6 @@ def run(ctx):
         ctx.save_replay(name + ".json", json.dumps(dict(property=PROP, what=what, meta=meta, extra=extra), indent=1, default=str))
         ctx.violation("%s; input class %s" % (what, json.dumps(meta, default=str)[:300]), path)
 
-    def match_finding(kind, loop=None, site=None, phase=None, meta=None):
-        for f in findings:
-            mt = f.get("match", {})
-            if mt.get("verdict") != kind:
-                continue
-            if kind == "HANG" and mt.get("loop") == loop:
-                return f
-            if kind == "CRASH" and mt.get("input_family") and meta and meta.get("fam") == mt["input_family"] and \
-                    meta.get("kind") in mt.get("kinds", []) and meta.get("n", 0) >= mt.get("min_n", 0):
-                return f
-            if kind in ("SANITIZER", "CRASH") and site and mt.get("function") in site[1][:1] and \
-                    (not mt.get("report") or mt.get("report") == site[0]) and \
-                    (not mt.get("line_text") or mt.get("line_text") == site[2]) and \
-                    (not mt.get("caller") or mt.get("caller") in site[1]):
-                return f
-        return None
-
     groups = {}
     for i, v, phase, det in events:
         groups.setdefault((v, phase, det.split(" ")[0] if v == "H" else det), []).append(i)
@@ -410,7 +415,7 @@ def run(ctx):
     for (v, phase, det), idxs in sorted(groups.items()):
         if v == "H":
             loop = det
-            f = match_finding("HANG", loop=loop)
+            f = match_finding(findings, "HANG", loop=loop)
             # confirm through the real binary: a sample when the group is a known finding, everything otherwise
             sample = idxs[:3] if f else idxs[:40]
             conf = []
@@ -444,7 +449,7 @@ def run(ctx):
                         log("C09: stack overflow under ASan only (%s; plain build: %s): not reported" % (meta(items[i]), c2["kind"]))
                         continue
                     site = san_site(c["err"], asan_tree)
-                    f = match_finding("CRASH", meta=meta(items[i]))
+                    f = match_finding(findings, "CRASH", meta=meta(items[i]))
                     if f:
                         known_counts[f["id"]] = known_counts.get(f["id"], 0) + 1
                         ctx.known(f["id"], "nano_virt dies from signal %s on %r (recursion through %s)" % (-c2["rc"], meta(items[i]), "/".join(site[1][:2])))
@@ -454,7 +459,7 @@ def run(ctx):
                     continue
                 if c["kind"] in ("sanitizer", "signal"):
                     site = san_site(c["err"], asan_tree)
-                    f = match_finding("SANITIZER" if c["kind"] == "sanitizer" else "CRASH", site=site, meta=meta(items[i]))
+                    f = match_finding(findings, "SANITIZER" if c["kind"] == "sanitizer" else "CRASH", site=site, meta=meta(items[i]))
                     if f:
                         known_counts[f["id"]] = known_counts.get(f["id"], 0) + 1
                         ctx.known(f["id"], "%s %s in %s on %r" % (c["kind"], site[0], "/".join(site[1]), meta(items[i])))
@@ -578,22 +583,63 @@ def run(ctx):
 
 
 def replay(ctx, path):
+    """Re-judge one artifact against the current tree.  A misbehaviour that a known-findings entry (status "known")
+    explains is printed as KNOWN-FINDING and the exit status is 0, exactly as in run()."""
     data = open(path, "rb").read()
+    findings = findings_for(PROP)
     asan_tree, hooked = build_with_hook(ctx, "asan")
     plain_tree = ctx.build("plain", targets=("nano_virt",))
     real = RealBinary(ctx, asan_tree, plain_tree)
     if path.endswith(".ndjson"):
-        r = tlc(ctx, "FrontEndTrace", "FrontEndTrace", workers=1, timeout=3000, env={"TRACE": path}, constants={"Dev": "{}"})
+        switches = sorted({f["match"]["switch"] for f in findings if f.get("match", {}).get("switch")})
+        dev = "{" + ", ".join('"%s"' % x for x in switches) + "}"
+        r = tlc(ctx, "FrontEndTrace", "FrontEndTrace", workers=1, timeout=3000, env={"TRACE": path}, constants={"Dev": dev})
         s = [x for x in r.records if x.get("k") == "summary"]
         print(json.dumps(s[0])[:2000] if s else r.out[-2000:])
         if not s or s[0]["violations"]:
             print("VIOLATION property=%s replay=%s" % (PROP, path))
             return 1
         return 0
-    a = real.run(data, sanitize=True, limit_s=20)
+    info = {}
+    if os.path.exists(path + ".json"):
+        try:
+            info = json.load(open(path + ".json")).get("meta") or {}
+        except ValueError:
+            pass
+    a = real.run(data, sanitize=True, limit_s=60)
     b = real.run(data, sanitize=False, limit_s=8)
     print("asan build: %s (rc %s)\nplain build: %s (rc %s)\n%s" % (a["kind"], a["rc"], b["kind"], b["rc"], (a["err"] or b["err"])[-800:]))
-    if a["kind"] in ("accepted", "rejected") and b["kind"] in ("accepted", "rejected"):
+    what, f = None, None
+    if b["kind"] == "timeout" or (b["kind"] == "signal" and a["kind"] == "timeout"):
+        loop = "?"
+        if hooked:
+            c = real.run(data, sanitize=True, limit_s=60, fuel=FUEL)
+            m = re.search(r"no progress in loop '(\w+)'", c["err"])
+            loop = m.group(1) if m else "?"
+        what = "the parser does not terminate (no progress in loop '%s')" % loop
+        f = match_finding(findings, "HANG", loop=loop)
+    elif a["kind"] == "sanitizer" and "stack-overflow" in a["err"][:400]:
+        if b["kind"] == "signal":
+            what = "the front end overflows the C stack (signal %s)" % -b["rc"]
+            f = match_finding(findings, "CRASH", meta=info)
+    elif a["kind"] in ("sanitizer", "signal"):
+        site = san_site(a["err"], asan_tree)
+        what = "the front end %s (%s in %s at `%s`)" % ("trips a sanitizer" if a["kind"] == "sanitizer" else "dies from a signal",
+                                                       site[0], "/".join(site[1]), site[2])
+        f = match_finding(findings, "SANITIZER" if a["kind"] == "sanitizer" else "CRASH", site=site, meta=info)
+    elif b["kind"] == "signal":
+        what = "nano_virt dies from signal %s" % -b["rc"]
+        f = match_finding(findings, "CRASH", meta=info)
+    elif a["kind"] == "timeout":
+        what = "the front end does not finish within 60 s"
+    elif b["kind"] == "rejected-silently":
+        what = "the input is rejected without any diagnostic"
+    if what is None:
+        print("verdict: the front end ends with %s / %s" % (a["kind"], b["kind"]))
         return 0
+    if f:
+        ctx.known(f["id"], what)
+        return 0
+    print("verdict: %s" % what)
     print("VIOLATION property=%s replay=%s" % (PROP, path))
     return 1
